@@ -46,5 +46,5 @@ PY
   exit $?
 fi
 cd "$HERE"
-VERIF_EXTRA_OVERLAY="$OV" VERIF_ROOT="$W/root" VERIF_BINDIR="$W/bin" ./run "$WHAT" "$TIER" | cut -c1-260 | tail -12
+VERIF_EXTRA_OVERLAY="$OV" VERIF_ROOT="$W/root" VERIF_BINDIR="$W/bin" ./run "$WHAT" "$TIER" | cut -c1-260 | awk '/^  note:/{n++; if (n>5) next} {print}' | tail -40
 exit ${PIPESTATUS[0]}
